@@ -111,11 +111,11 @@ TRANSLATED = {
  'C04': ('all 33 methods of malVisitor (mal_visitor.py), run on parse trees of a hand-written tree builder whose trees are compared with ANTLR\'s on every run (ties proved for expressions, TTC, clauses, associations, visitMal; step / asset / category level executed against the real compiler only)', 'py2lean_visitor.py', 'Py/GenVisitor', 'PropsGen/C04.lean'),
  'C16': ('create_attack_graph (wrappers.py) and Model.load_from_file as the composition of the generated functions of the other domains, with the evaluator environment instantiated from the translated model and language-graph heaps (evalEnvOf_eq)', 'py2lean_wrapper.py', 'Py/GenWrapper', 'PropsGen/C16.lean'),
  'C17': ('malVisitor.visitMal (include handling) and the hand-written glue compileGen over the tree builder', 'py2lean_visitor.py', 'Py/GenVisitor', 'PropsGen/C17.lean'),
- 'C05': ('the mutators and lookups of Model and AttackerAttachment (model.py: add_asset, remove_asset, remove_asset_from_association, _validate_association, add_association, remove_association, add/remove_attacker, entry points, get_*, association_exists_between_assets, get_associated_assets_by_field_name)', 'py2lean_model.py', 'Py/GenModel', 'PropsGen/C05.lean'),
+ 'C05': ('the mutators and lookups of Model and AttackerAttachment (model.py: add_asset, remove_asset, remove_asset_from_association, _validate_association, add_association, remove_association, add/remove_attacker, entry points, get_*, association_exists_between_assets, get_associated_assets_by_field_name)', 'py2lean_model.py (+ py2lean_stmodel.py: the same mutators emitted once more in a monad that keeps the heap an exception leaves behind)', 'Py/GenModel, Py/GenModelSt', 'PropsGen/C05.lean, PropsGen/C05_St.lean (a rejected mutator leaves the heap unchanged; what a half-way raise leaves)'),
  'C06': ('LanguageClassesFactory._generate_assets, _generate_associations (with its three closures), _create_classes up to the JSON schema, get_association_by_signature (classes_factory.py; python_jsonschema_objects stays the modelled boundary)', 'py2lean_classes.py', 'Py/GenClasses', 'PropsGen/C06.lean'),
  'C07': ('Model.get_asset_defenses, asset_to_dict, association_to_dict, attacker_to_dict, _to_dict and _from_dict (model.py; the json / yaml file layer stays a modelled function; _to_dict tied in general, _from_dict by a general shorthand lemma plus kernel-evaluated documents)', 'py2lean_mserial.py', 'Py/GenMSerial', 'PropsGen/C07.lean'),
  'C08': ('analyzers/apriori.py (propagation, evaluation, outer loop incl. the reset)', 'py2lean.py', 'Py/Gen', 'PropsGen/C08.lean'),
- 'C09': ('attackgraph.py (lookups, add_node, remove_node, add_attacker, remove_attacker, regenerate_graph, __init__), attacker.py', 'py2lean.py', 'Py/Gen', 'PropsGen/C09.lean, PropsGen/C09_Regen.lean'),
+ 'C09': ('attackgraph.py (lookups, add_node, remove_node, add_attacker, remove_attacker, regenerate_graph, __init__), attacker.py', 'py2lean.py (+ py2lean_st.py: heap-keeping emission of the raising mutators)', 'Py/Gen, Py/GenSt', 'PropsGen/C09.lean, PropsGen/C09_Regen.lean, PropsGen/C09_St.lean (a rejected add_node / add_attacker leaves the whole heap unchanged; exact partial states of the removals)'),
  'C10': ('AttackGraphNode.to_dict, Attacker.to_dict, AttackGraph._to_dict and AttackGraph._from_dict (the json / yaml file layer stays a modelled function)', 'py2lean_agserial.py', 'Py/GenAgSerial', 'PropsGen/C10.lean'),
  'C11': ('attacker.py and node.py (compromise, undo_compromise, is_compromised_by) and AttackGraph.attach_attackers', 'py2lean.py', 'Py/Gen', 'PropsGen/C11.lean, PropsGen/C11_Attach.lean'),
  'C12': ('query.py (all functions) and the defense predicates of node.py', 'py2lean.py', 'Py/Gen', 'PropsGen/C12.lean'),
